@@ -330,7 +330,11 @@ func cmdCheck(args []string) {
 			case ledger.Verified[o.Fn]:
 				violations = append(violations, vio{o, "function was fully verified on the unchanged tree; the changed body has an obligation that does not discharge (" + o.Result + ")"})
 			default:
-				undecided = append(undecided, o.Name+" ("+o.Result+")")
+				u := o.Name + " (" + o.Result + ")"
+				if o.Evaluated && o.Model != "" {
+					u += "\n    " + strings.ReplaceAll(o.Model, "\n", "\n    ")
+				}
+				undecided = append(undecided, u)
 			}
 		}
 	}
@@ -446,6 +450,11 @@ func cmdCheck(args []string) {
 		"termination is proved only where a decreases clause is given; other contracts are partial-correctness")
 	for n := range notes {
 		assumptions = append(assumptions, n)
+	}
+	for _, inv := range cfg.Inventory {
+		if inv == "map-range" {
+			assumptions = append(assumptions, eng.mapRangeAssumed()...)
+		}
 	}
 	sort.Strings(assumptions[len(cfg.Assume):])
 	ev := map[string]interface{}{
